@@ -661,11 +661,13 @@ def report(prop, tier, seed, results, kres, t0):
     with open(os.path.join(EVID, "%s.json" % prop), "w") as f:
         json.dump(ev, f, indent=1)
     if rc == 0:
+        if obligations == 0 or obligations != discharged:
+            # a function that serves this property fails, but no clause tagged for this property does (the failing clause belongs
+            # to another property): this property is not decided by this run
+            print("UNDECIDED property=%s obligation count %d/%d (tier=%s tagged_clauses=%d wall=%.1fs)" % (prop, discharged, obligations, tier, n_tagged, wall))
+            return 2
         print("OK property=%s tier=%s obligations=%d discharged=%d tagged_clauses=%d wall=%.1fs" %
               (prop, tier, obligations, discharged, n_tagged, wall))
-        if obligations == 0 or obligations != discharged:
-            print("UNDECIDED property=%s obligation count %d/%d" % (prop, discharged, obligations))
-            return 2
     return rc
 
 
